@@ -76,37 +76,24 @@ theorem dot_suffix_matches_proper_subnames_only (d' name : Str)
   simp at this
   omega
 
-/-- **keyword**: a non-empty keyword free of the anchor bytes `^` `$` matches exactly the names that
-contain it.  (The empty keyword never matches: the Aho-Corasick library does not report the empty
-word — mirrored by `acContains`, excluded here explicitly.) -/
-theorem keyword_matches_containing_names (p name : Str) (hp : p.all acValid = true)
-    (hpm : NoMarkers p) (hne : p ≠ []) (hn : plainName name = true) :
-    acContains (normKeyword p) (cHat :: normName name ++ [cDollar]) = true ↔
+/-- **keyword**: a non-empty keyword (over the library alphabet without the head / tail marks) matches
+exactly the names that contain it.  (The empty keyword never matches: the Aho-Corasick library does
+not report the empty word — `empty_keyword_never_matches`.)  Stated for what the matcher model
+executes: the Aho-Corasick automaton on `^name$`. -/
+theorem keyword_matches_containing_names (p name : Str) (hp : p.all kwValid = true) (hne : p ≠ [])
+    (hn : plainName name = true) :
+    acAuto (normKeyword p) (cHat :: normName name ++ [cDollar]) = true ↔
       ∃ x y, normName name = x ++ p ++ y := by
   have hd := plainDom_normName name hn
+  rw [acAuto_eq_acContains]
   unfold acContains
   rw [hd.map_acNorm]
   simp only [normKeyword, hp, ↓reduceIte, List.any_cons, List.any_nil, Bool.or_false, Bool.and_eq_true,
     Bool.not_eq_true', List.isEmpty_eq_false_iff, isInfix_iff]
-  rw [infix_markers_iff p _ hpm hne]
+  rw [infix_markers_iff p _ (kwValid_noMarkers p hp) hne]
   constructor
   · rintro ⟨_, x, y, h⟩; exact ⟨x, y, h.symm⟩
   · rintro ⟨x, y, h⟩; exact ⟨hne, x, y, h.symm⟩
-
-/-- **keyword, anchored forms included.** What the code looks up (the keyword inside `^name$`, via the
-Aho-Corasick library, trusted as substring search) is the documented meaning `kwMeaning`, which is
-stated independently of the sentinel trick: for every keyword over the library's alphabet and every
-name of the property's alphabet. -/
-theorem keyword_lookup_eq_meaning (p name : Str) (hp : p.all acValid = true) (hn : plainName name = true) :
-    acContains (normKeyword p) (cHat :: normName name ++ [cDollar]) = kwMeaning p (normName name) := by
-  have hd := plainDom_normName name hn
-  unfold acContains
-  rw [hd.map_acNorm]
-  simp only [normKeyword, hp, ↓reduceIte, List.any_cons, List.any_nil, Bool.or_false]
-  by_cases hne : p = []
-  · subst hne; simp [kwMeaning]
-  · have : p.isEmpty = false := by cases p <;> simp_all
-    rw [this, infix_sentinels_eq_kwMeaning p _ hd.noMarkers hne]; simp
 
 /-- **The Aho-Corasick automaton is substring search.** The model of the library's automaton (trie of the
 dictionary, `fail` = longest proper suffix that is a node, `suffix` = longest proper suffix that is a
@@ -120,75 +107,30 @@ theorem ac_contains_iff_infix (dict : List Str) (input : Str) :
 example : acAuto [strOf "abc", strOf "bcd", strOf "c"] (strOf "xbcy") = true ∧
     acAuto [strOf "abc", strOf "bcd"] (strOf "abxbcxcd") = false ∧ acAuto [[]] (strOf "abc") = false := by decide
 
-/-- what the matcher model executes for a keyword set (the automaton on `^name$`) is `kwMeaning` -/
-theorem keyword_automaton_eq_meaning (p name : Str) (hp : p.all acValid = true) (hn : plainName name = true) :
-    acAuto (normKeyword p) (cHat :: normName name ++ [cDollar]) = kwMeaning p (normName name) := by
-  rw [acAuto_eq_acContains]
-  exact keyword_lookup_eq_meaning p name hp hn
+/-- **A keyword containing `^` or `$` is skipped** (after the `fix:` commit): these bytes are the marks
+`MatchDomainBitmap` puts around the name, a keyword with them would not mean "contains"
+(`keyword:$` used to match every name). -/
+theorem keyword_with_marks_is_skipped (p : Str) (h : p.any isMarker = true) : normKeyword p = [] := by
+  obtain ⟨c, hc, hm⟩ := List.any_eq_true.mp h
+  have : p.all kwValid = false := by
+    rw [Bool.eq_false_iff]
+    intro hall
+    have := List.all_eq_true.mp hall c hc
+    simp [kwValid, hm] at this
+  simp [normKeyword, this]
+
+example : normKeyword (strOf "$") = [] ∧ normKeyword (strOf "^goog") = [] ∧ normKeyword (strOf "goog") = [strOf "goog"] := by
+  decide
 
 /-- the two alphabets in use have no repeated byte, so the model's table (`idxOf`, first occurrence)
 and Go's (`table[c] = n`, last write) are the same function; the harness checks on every run that the
 real tables' `Size()` equals the number of valid bytes -/
 theorem alphabets_nodup : domainChars.alphabet.Nodup ∧ cidrChars.alphabet.Nodup ∧ acChars.Nodup := by decide
 
-/-- `^k`: the name starts with `k` -/
-theorem keyword_start_anchor (k dom : Str) (hk : NoMarkers k) :
-    kwMeaning (cHat :: k) dom = true ↔ k <+: dom := by
-  have hm : k.any isMarker = false := noMarker_of_subset hk (fun _ h => h)
-  have hz : (k.getLast? == some cDollar) = false := by
-    simp only [beq_eq_false_iff_ne]
-    exact getLast?_ne_of_not_mem (fun h => (hk _ h).2 rfl)
-  simp [kwMeaning, hz, hm, List.isPrefixOf_iff_prefix]
-
-/-- `k$`: the name ends with `k` -/
-theorem keyword_end_anchor (k dom : Str) (hk : NoMarkers k) :
-    kwMeaning (k ++ [cDollar]) dom = true ↔ k <:+ dom := by
-  have hm : k.any isMarker = false := noMarker_of_subset hk (fun _ h => h)
-  have ha : ((k ++ [cDollar]).head? == some cHat) = false := by
-    cases k with
-    | nil => decide
-    | cons c k => simp only [List.cons_append, List.head?_cons, beq_eq_false_iff_ne]
-                  intro h; exact (hk c (by simp)).1 (Option.some.inj h)
-  have hne : (k ++ [cDollar]).isEmpty = false := by cases k <;> simp
-  unfold kwMeaning
-  simp only [hne, Bool.false_eq_true, ↓reduceIte, ha, List.getLast?_concat, beq_self_eq_true,
-    List.dropLast_concat, hm, List.isSuffixOf_iff_suffix]
-
-/-- `^k$`: the name is `k` -/
-theorem keyword_both_anchors (k dom : Str) (hk : NoMarkers k) :
-    kwMeaning (cHat :: k ++ [cDollar]) dom = true ↔ dom = k := by
-  have hm : k.any isMarker = false := noMarker_of_subset hk (fun _ h => h)
-  simp [kwMeaning, hm]
-
-/-- plain `k`: the name contains `k` -/
-theorem keyword_plain (k dom : Str) (hk : NoMarkers k) (hne : k ≠ []) :
-    kwMeaning k dom = true ↔ ∃ x y, dom = x ++ k ++ y := by
-  have hm : k.any isMarker = false := noMarker_of_subset hk (fun _ h => h)
-  have ha : (k.head? == some cHat) = false := by
-    cases k with
-    | nil => exact absurd rfl hne
-    | cons c k => simp only [List.head?_cons, beq_eq_false_iff_ne]
-                  intro h; exact (hk c (by simp)).1 (Option.some.inj h)
-  have hz : (k.getLast? == some cDollar) = false := by
-    simp only [beq_eq_false_iff_ne]
-    exact getLast?_ne_of_not_mem (fun h => (hk _ h).2 rfl)
-  have hemp : k.isEmpty = false := by cases k <;> simp_all
-  simp only [kwMeaning, hemp, ha, hz, hm, Bool.false_eq_true, ↓reduceIte, isInfix_iff]
-  constructor
-  · rintro ⟨x, y, h⟩; exact ⟨x, y, h.symm⟩
-  · rintro ⟨x, y, h⟩; exact ⟨x, y, h.symm⟩
-
-/-- a keyword with `^`/`$` anywhere else never matches a name of the property's alphabet -/
-example : kwMeaning (strOf "a^b") (strOf "a^b") = false ∧ kwMeaning (strOf "^goog") (strOf "google.com") = true ∧
-    kwMeaning (strOf "^goog") (strOf "agoogle.com") = false ∧ kwMeaning (strOf "com$") (strOf "a.com") = true ∧
-    kwMeaning (strOf "com$") (strOf "a.com.cn") = false ∧ kwMeaning (strOf "^") (strOf "x") = true := by decide
-
 theorem empty_keyword_never_matches (input : Str) : acContains (normKeyword []) input = false := by
   simp [acContains, normKeyword]
 
-example : (strOf "goog").all acValid = true ∧ NoMarkers (strOf "goog") ∧ strOf "goog" ≠ [] := by
-  refine ⟨by decide, ?_, by decide⟩
-  intro c hc; revert c; decide
+example : (strOf "goog").all kwValid = true ∧ strOf "goog" ≠ [] := by decide
 
 /-- **regex**: a set's regex part fires iff Go's `regexp` (the oracle `rxHits`, evaluated on the
 lower-cased, dot-trimmed name) matched one of its patterns. -/
@@ -502,5 +444,52 @@ theorem matcher_trie_path_eq_contract (n : Nat) (log : List AddCall) (name : Str
       b.matchIndices name rxHits = some (b.matchIndicesSpec name rxHits) := by
   obtain ⟨b, hb, hsize, hsets⟩ := build_ok n log hall
   exact ⟨b, hb, matchIndices_eq_spec n log b hsize hsets name rxHits⟩
+
+/-! ## letter case of the PATTERNS (after the `fix:` commit: `AddSet` lower-cases them) -/
+
+/-- `Matcher.replay` (patterns as written) is the left fold of the Go-level `AddSet`
+(`addSetGo` = lower-case, then screen and store). -/
+theorem replay_is_fold_of_addSetGo (n : Nat) (log : List AddCall) :
+    Matcher.replay n log = log.foldl (fun m a => m.addSetGo a.idx a.kind a.pats) (Matcher.new n) := by
+  unfold Matcher.replay Matcher.replayCore
+  rw [List.foldl_map]
+  rfl
+
+theorem callOk_lowered (n : Nat) (a : AddCall) : callOk n a.lowered = callOk n a := by
+  unfold callOk AddCall.lowered lowerPats
+  cases a.kind <;> simp
+
+/-- **Headline, patterns in any letter case.** Same quantifiers as `domain_matcher_correct`, with the
+patterns as the user wrote them: bit `i` is set iff some pattern added under `i`, lower-cased, is valid
+and matches the (lower-cased, dot-trimmed) name. -/
+theorem domain_matcher_correct_any_case (n : Nat) (log : List AddCall) (name : Str) (rxHits : List Nat)
+    (hall : ∀ a ∈ log, callOk n a = true) (hn : plainName name = true) :
+    ∃ b, (Matcher.replay n log).build = .ok b ∧
+      b.matchIndices name rxHits = some ((List.range n).filter fun i => docMatches log i name rxHits) := by
+  apply domain_matcher_correct n (log.map AddCall.lowered) name rxHits _ hn
+  intro a ha
+  obtain ⟨a0, ha0, rfl⟩ := List.mem_map.mp ha
+  rw [callOk_lowered]; exact hall a0 ha0
+
+theorem domain_matcher_bitmap_correct_any_case (n : Nat) (log : List AddCall) (name : Str) (rxHits : List Nat)
+    (hall : ∀ a ∈ log, callOk n a = true) (hn : plainName name = true) :
+    ∃ b ws, (Matcher.replay n log).build = .ok b ∧ b.matchBitmap name rxHits = some ws ∧
+      ws.length = (n + 31) / 32 ∧ (∀ w ∈ ws, w < 2 ^ 32) ∧
+      ∀ i, (ws.getD (i / 32) 0).testBit (i % 32) = (decide (i < n) && docMatches log i name rxHits) := by
+  apply domain_matcher_bitmap_correct n (log.map AddCall.lowered) name rxHits _ hn
+  intro a ha
+  obtain ⟨a0, ha0, rfl⟩ := List.mem_map.mp ha
+  rw [callOk_lowered]; exact hall a0 ha0
+
+/-- **A full pattern in any letter case matches the identical name** (and exactly the names equal to it
+up to letter case): witness for the `fix:` commit — `full:Example.com` matches `Example.com`. -/
+theorem full_pattern_any_case (d name : Str) (hd : (lower d).all domainChars.isValid = true)
+    (hn : plainName name = true) :
+    docMatches [⟨0, .full, [⟨d, true, 0⟩]⟩] 0 name [] = true ↔ normName name = lower d := by
+  simp [docMatches, docMatchesCore, AddCall.lowered, lowerPats, patValid, patMatches, hd]
+
+example : docMatches [⟨0, .full, [⟨strOf "Example.com", true, 0⟩]⟩] 0 (strOf "Example.com") [] = true ∧
+    docMatches [⟨3, .keyword, [⟨strOf "Google", true, 0⟩]⟩] 3 (strOf "www.GOOGLE.com.") [] = true ∧
+    docMatches [⟨3, .keyword, [⟨strOf "$", true, 0⟩]⟩] 3 (strOf "x.net") [] = false := by decide
 
 end DaeVerif.C11.Props
